@@ -510,6 +510,12 @@ static std::string battery(PIP_Problem& p, uint64_t seed) {
 static std::ofstream objs;
 static int maxmut = 40;
 
+// part of the target's state, besides the status word, that a loader may leave untouched
+template <class T> std::string target_extra(const T&) { return ""; }
+template <> std::string target_extra(const Grid& g) {
+  std::ostringstream o; for (size_t i = 0; i < g.dim_kinds.size(); ++i) o << ' ' << int(g.dim_kinds[i]); return o.str();
+}
+
 template <class T> struct Maker { static T make(Rng& r) { return make_domain<T>(r); } static T target(Rng& r) { return used_target<T>(r); } };
 #define SYS_MAKER(T, F) template <> struct Maker<T > { static T make(Rng& r) { return F(r); } static T target(Rng& r) { return F(r); } };
 SYS_MAKER(Constraint_System, make_cs)
@@ -544,12 +550,13 @@ template <class T> void run_one(long idx, uint64_t seed) {
   // load into a USED object
   T t = Maker<T>::target(r);
   const unsigned tflags = Traits<T>::flags(t);
+  const std::string textra = target_extra(t);
   bool ok3 = load(t, d1);
   std::string d3 = ok3 ? dump(t) : std::string();
   // for the OCaml side
   objs << "OBJ " << idx << ' ' << cls << "\n" << d1 << "\nENDD\n";
   objs << "D2 " << (ok ? 1 : 0) << "\n" << d2 << "\nENDD\n";
-  objs << "D3 " << (ok3 ? 1 : 0) << ' ' << tflags << "\n" << d3 << "\nENDD\n";
+  objs << "D3 " << (ok3 ? 1 : 0) << ' ' << tflags << textra << "\n" << d3 << "\nENDD\n";
   // (vi) malformed streams
   std::vector<std::string> tk = tokens(d1);
   std::vector<long> pos;
